@@ -63,12 +63,15 @@ structure Quirks where
   /-- F179 (b): `lyd_validate_autodel_case_dflt` records the removal of a leftover default non-presence container through its
   children only (`np_cont_diff = 0`), not the container itself -/
   caseDfltNpViaKids : Bool := false
+  /-- F321: `lyd_validate_cases` takes default-flagged nodes (a client-given empty non-presence container) for data of a case -/
+  casesCountDefault : Bool := false
   deriving Repr, BEq, DecidableEq, Inhabited
 
 def Quirks.current : Quirks :=
   { uniqueDefaultAlways := Generated.uniqueDefaultAlways, implicitInnerCase := Generated.implicitInnerCase,
     autodelDirectCase := Generated.autodelDirectCase, valDiffNoDeleteAnchor := Generated.valDiffNoDeleteAnchor,
-    isDefaultAnyOne := Generated.isDefaultAnyOne, caseDfltNpViaKids := Generated.caseDfltNpViaKids }
+    isDefaultAnyOne := Generated.isDefaultAnyOne, caseDfltNpViaKids := Generated.caseDfltNpViaKids,
+    casesCountDefault := Generated.casesCountDefault }
 
 def Quirks.fixed : Quirks :=
   { uniqueDefaultAlways := false, implicitInnerCase := false, autodelDirectCase := false, valDiffNoDeleteAnchor := false,
@@ -94,8 +97,11 @@ def parseXLine (line : String) : Option (Nat × List Nat) :=
     pure (lsid, leaves)
   | _ => none
 
+/-- the `unique` lines of the extension DSL; the lines of the XPath-dependent statements (`must` / `leafref` / `when <sid> <hex>`,
+read by `LyModel/Valid/XpValid.lean: parseXCons`) are skipped here -/
 def parseXdsl (b : Bytes) : Option (List (Nat × List Nat)) :=
-  if b.isEmpty then some [] else ((asciiString b).splitOn "\n").mapM parseXLine
+  if b.isEmpty then some []
+  else (((asciiString b).splitOn "\n").filter fun l => !(l.startsWith "must " || l.startsWith "leafref " || l.startsWith "when " || l.startsWith "xpmask ")).mapM parseXLine
 
 def SchemaX.ofHex (dsl xdsl : String) : Option SchemaX := do
   let S ← Schema.ofHex dsl
